@@ -116,13 +116,20 @@ Proof.
   replace (apply_ev sg e) with sg; [exact IH|]. destruct sg, e; try discriminate; reflexivity.
 Qed.
 
+(* every record handed to the store went through the codec: it has a data map *)
+Definition ev_codec (e : ev) : Prop := match e with EvSave _ r _ => r_data r <> None | _ => True end.
+
+Lemma codec_data cf r : r_data (codec cf r) <> None.
+Proof. simpl. destruct (r_data r); discriminate. Qed.
+
 Record ext (s s' : st) (l : list ev) : Prop := mkExt {
   x_evs : evs s' = rev l ++ evs s;
   x_sg : sg_of s' = replay l (sg_of s);
   x_conf : conf s' = conf s;
   x_now : now s' = now s;
   x_supply : supply s' = (supply s + count_draws l)%N;
-  x_plan : plan s = [] -> plan s' = [] }.
+  x_plan : plan s = [] -> plan s' = [];
+  x_codec : Forall ev_codec l }.
 
 Lemma ext_mem s s' :
   evs s' = evs s -> store s' = store s -> graves s' = graves s -> conf s' = conf s ->
@@ -132,6 +139,7 @@ Proof.
   - unfold sg_of. congruence.
   - rewrite N.add_0_r. assumption.
   - congruence.
+  - constructor.
 Qed.
 
 Lemma ext_refl s : ext s s [].
@@ -139,13 +147,14 @@ Proof. apply ext_mem; reflexivity. Qed.
 
 Lemma ext_trans s1 s2 s3 l1 l2 : ext s1 s2 l1 -> ext s2 s3 l2 -> ext s1 s3 (l1 ++ l2).
 Proof.
-  intros [E1 G1 C1 N1 S1 P1] [E2 G2 C2 N2 S2 P2]. constructor.
+  intros [E1 G1 C1 N1 S1 P1 D1] [E2 G2 C2 N2 S2 P2 D2]. constructor.
   - rewrite E2, E1, rev_app_distr, app_assoc. reflexivity.
   - rewrite G2, G1, replay_app. reflexivity.
   - congruence.
   - congruence.
   - rewrite S2, S1, count_draws_app. lia.
   - auto.
+  - apply Forall_app. split; assumption.
 Qed.
 
 (* memory-only updates *)
@@ -181,19 +190,21 @@ Qed.
 
 Lemma ext_one s s' e :
   evs s' = e :: evs s -> sg_of s' = apply_ev (sg_of s) e -> conf s' = conf s -> now s' = now s ->
-  supply s' = (supply s + (if is_draw e then 1 else 0))%N -> (plan s = [] -> plan s' = []) -> ext s s' [e].
+  supply s' = (supply s + (if is_draw e then 1 else 0))%N -> (plan s = [] -> plan s' = []) -> ev_codec e ->
+  ext s s' [e].
 Proof.
   intros. constructor; simpl; try assumption.
-  replace (count_draws [e]) with (if is_draw e then 1%N else 0%N); [assumption|]. destruct e; reflexivity.
+  - replace (count_draws [e]) with (if is_draw e then 1%N else 0%N); [assumption|]. destruct e; reflexivity.
+  - constructor; [assumption | constructor].
 Qed.
 
 (* after next_fault, logging one event e whose effect on store/graves is that of apply_ev *)
 Lemma ext_fault_log s b s1 s' e :
   next_fault s = (b, s1) -> is_draw e = false ->
   evs s' = e :: evs s1 -> sg_of s' = apply_ev (sg_of s1) e -> conf s' = conf s1 -> now s' = now s1 ->
-  supply s' = supply s1 -> plan s' = plan s1 -> ext s s' [e].
+  supply s' = supply s1 -> plan s' = plan s1 -> ev_codec e -> ext s s' [e].
 Proof.
-  intros NF Hd He Hsg Hc Hn Hsu Hpl. apply next_fault_spec in NF.
+  intros NF Hd He Hsg Hc Hn Hsu Hpl Hcd. apply next_fault_spec in NF.
   destruct NF as (_ & He1 & Hs1 & Hg1 & Hc1 & Hn1 & Hsu1 & Hp1).
   apply ext_one; try congruence.
   - rewrite Hsg. unfold sg_of. rewrite Hs1, Hg1. reflexivity.
@@ -218,7 +229,7 @@ Proof.
   pose proof (next_fault_spec _ _ _ NF) as (_ & _ & Hs & Hg & Hc & _ & _ & Hp).
   rewrite Hc. intro H. split; [|split; [|split; [|split]]].
   - destruct f; injection H as <- <-; eapply same_mem_fault; try exact NF; reflexivity.
-  - destruct f; injection H as <- <-; eapply ext_fault_log; try exact NF; reflexivity.
+  - destruct f; injection H as <- <-; eapply ext_fault_log; try exact NF; try reflexivity; try exact I; apply codec_data.
   - intro Hpl. apply Hp in Hpl. destruct Hpl as [-> _]. injection H as _ <-. reflexivity.
   - destruct f; injection H as <- <-; simpl; congruence.
   - destruct f; injection H as <- <-; simpl; congruence.
@@ -233,7 +244,7 @@ Proof.
   pose proof (next_fault_spec _ _ _ NF) as (_ & _ & Hs & Hg & Hc & _ & _ & Hp).
   intro H. split; [|split; [|split]].
   - destruct f; injection H as <- <-; eapply same_mem_fault; try exact NF; reflexivity.
-  - destruct f; injection H as <- <-; eapply ext_fault_log; try exact NF; reflexivity.
+  - destruct f; injection H as <- <-; eapply ext_fault_log; try exact NF; try reflexivity; try exact I; apply codec_data.
   - intro Hpl. apply Hp in Hpl. destruct Hpl as [-> _]. injection H as _ <-. reflexivity.
   - destruct f; injection H as <- <-; simpl; congruence.
 Qed.
@@ -253,11 +264,11 @@ Proof.
   destruct f.
   - intro H; injection H as <- <-.
     split; [eapply same_mem_fault; try exact NF; reflexivity|]. split; [exact Hs|]. split; [exact Hg|].
-    exists [EvLoad k false]. split; [eapply ext_fault_log; try exact NF; reflexivity|].
+    exists [EvLoad k false]. split; [eapply ext_fault_log; try exact NF; try reflexivity; try exact I; apply codec_data|].
     split; [repeat constructor|]. split; [discriminate|].
     intro Hpl. apply Hp in Hpl. destruct Hpl. discriminate.
   - assert (X1 : ext s (log s1 (EvLoad k true)) [EvLoad k true])
-      by (eapply ext_fault_log; try exact NF; reflexivity).
+      by (eapply ext_fault_log; try exact NF; try reflexivity; try exact I; apply codec_data).
     assert (M1 : same_mem s (log s1 (EvLoad k true)))
       by (eapply same_mem_fault; try exact NF; reflexivity).
     cbn [log store set_evs]. rewrite Hs. destruct (lookup (store s) k) as [r|] eqn:EL.
@@ -266,7 +277,7 @@ Proof.
         destruct (next_fault (log s1 (EvLoad k true))) as [f2 s2] eqn:NF2.
         pose proof (next_fault_spec _ _ _ NF2) as (_ & _ & Gs & Gg & _ & _ & _ & Gp).
         assert (X : forall b, ext s (log s2 (EvLoadUser u b)) ([EvLoad k true] ++ [EvLoadUser u b])).
-        { intro b. eapply ext_trans; [exact X1|]. eapply ext_fault_log; try exact NF2; reflexivity. }
+        { intro b. eapply ext_trans; [exact X1|]. eapply ext_fault_log; try exact NF2; try reflexivity; exact I. }
         assert (M : forall b, same_mem s (log s2 (EvLoadUser u b))).
         { intro b. eapply same_mem_trans; [exact M1|]. eapply same_mem_fault; try exact NF2; reflexivity. }
         simpl in Gs, Gg.
@@ -293,16 +304,16 @@ Proof.
   pose proof (next_fault_spec _ _ _ NF) as (_ & _ & Hs & Hg & Hc & _ & _ & Hp).
   destruct f; intro H; injection H as <- <-.
   - split; [eapply same_mem_fault; try exact NF; reflexivity|]. split; [exact Hs|]. split; [exact Hg|].
-    exists false. split; [eapply ext_fault_log; try exact NF; reflexivity|].
+    exists false. split; [eapply ext_fault_log; try exact NF; try reflexivity; try exact I; apply codec_data|].
     intros _ Hpl. apply Hp in Hpl. destruct Hpl. discriminate.
   - split; [eapply same_mem_fault; try exact NF; reflexivity|]. split; [exact Hs|]. split; [exact Hg|].
-    exists true. split; [eapply ext_fault_log; try exact NF; reflexivity|]. discriminate.
+    exists true. split; [eapply ext_fault_log; try exact NF; try reflexivity; try exact I; apply codec_data|]. discriminate.
 Qed.
 
 Lemma gen_id_spec s : ext s (fst (gen_id s)) [EvDraw (supply s)] /\ same_mem s (fst (gen_id s)) /\
   snd (gen_id s) = KGen (supply s) /\ plan (fst (gen_id s)) = plan s.
 Proof.
-  split; [|repeat split]. constructor; simpl; try reflexivity. intro H. exact H.
+  split; [|repeat split]. constructor; simpl; try reflexivity; [intro H; exact H | constructor; [exact I | constructor]].
 Qed.
 
 (* ------------------------------------------------------------- order_by_tb *)
